@@ -33,6 +33,10 @@ def pick_pairs(rng, data):
     ts = [t.text for p in cps if p in parts for t in parts[p].iter() if src.ptag(t) == 'w:t' and t.text and src.TOKEN.search(t.text)
           and not any(src.ptag(a) == 'w:hyperlink' for a in t.iterancestors())]
     pairs = []
+    if ts and rng.random() < 0.3:
+        # a needle that occurs in every text node (several hits in one run, separated by tabs / breaks)
+        old = rng.choice(['»', '«', '»x'])
+        return [(old, rng.choice(['l1\nl2\nl3', '', 'A\n\nB', 'Z', '\n', 'q\nr']))]
     for _ in range(rng.randint(1, 3)):
         if ts and rng.random() < 0.85:
             s = rng.choice(ts); m = src.TOKEN.search(s)
